@@ -26,7 +26,6 @@ func c05History(r *verifrt.R, c *verifrt.Case, avoidKnown bool) {
 		}
 	}()
 	var opsSoFar [][]vuOp
-	var cur *vuBlock
 	describe := func(extra map[string]any) {
 		m := map[string]any{"history": c.Stream, "size_ops_before_each_block": opsSoFar}
 		for k, v := range extra {
@@ -70,18 +69,13 @@ func c05History(r *verifrt.R, c *verifrt.Case, avoidKnown bool) {
 	}
 	h := fnv.New64a()
 	nt := false
-	var prevDec *Decoder
 
 	vuRunHistory(c.Rng, cfg, func(b *vuBlock) bool {
-		cur = b
-		_ = cur
 		opsSoFar = append(opsSoFar, b.Ops)
 		emits := decAddsAtEmit
 		decAddsAtEmit = nil
 		startAdds := decAddsBlockStart
 		decAddsBlockStart = c05Adds(&b.Dec.dynTab)
-		prevDec = b.Dec
-		_ = prevDec
 		if violated {
 			return false
 		}
@@ -89,32 +83,13 @@ func c05History(r *verifrt.R, c *verifrt.Case, avoidKnown bool) {
 		res := b.Res
 		// The round trip itself is C01's business: if it broke (known size-update defects), this
 		// history cannot be followed any further.
-		if res.Err != "" || b.Werr != nil || b.Cerr != nil || vuFirstDiff(res.Fields, in) >= 0 || len(b.Got) != len(in) {
-			// ... except for the Sensitive flag, which is this property's
-			if res.Err == "" && b.Werr == nil && b.Cerr == nil && len(b.Got) == len(in) {
-				for i := range in {
-					if in[i].Name == b.Got[i].Name && in[i].Value == b.Got[i].Value && in[i].Sensitive && !b.Got[i].Sensitive {
-						describe(map[string]any{"block": b.Idx, "field_index": i, "block_wire_hex": vuHex(b.Wire)})
-						viol("decoder-drops-sensitive-flag", "block %d field %d %s: Decoder emitted it with Sensitive=false", b.Idx, i, vuFieldsStr(in[i:i+1], 1))
-						return false
-					}
-				}
-				for i := range in {
-					if i < len(res.Fields) && in[i].Name == res.Fields[i].Name && in[i].Value == res.Fields[i].Value && in[i].Sensitive && !res.Fields[i].Sensitive {
-						k := byte('?')
-						if i < len(res.FieldRep) {
-							k = res.Reps[res.FieldRep[i]].Kind
-						}
-						describe(map[string]any{"block": b.Idx, "field_index": i, "block_wire_hex": vuHex(b.Wire)})
-						viol("sensitive-field-encoded-as-"+c05KindName[k], "block %d field %d %s: representation on the wire is %s", b.Idx, i, vuFieldsStr(in[i:i+1], 1), c05KindName[k])
-						return false
-					}
-				}
+		cut := res.Err != "" || b.Werr != nil || b.Cerr != nil || len(res.Fields) != len(in) || len(b.Got) != len(in) || len(emits) != len(in)
+		for i := 0; !cut && i < len(in); i++ {
+			if res.Fields[i].Name != in[i].Name || res.Fields[i].Value != in[i].Value || b.Got[i].Name != in[i].Name || b.Got[i].Value != in[i].Value {
+				cut = true
 			}
-			ev["histories_cut_short_by_round_trip_failure"]++
-			return false
 		}
-		if len(emits) != len(in) {
+		if cut {
 			ev["histories_cut_short_by_round_trip_failure"]++
 			return false
 		}
@@ -241,7 +216,7 @@ func TestVerif_C05(t *testing.T) {
 		return
 	}
 	r.Event("ref_selfcheck_ok", 1)
-	n := r.N(4000, 100000)
+	n := r.N(3000, 60000)
 	r.CasesParallel("histories", n, 0, func(c *verifrt.Case) { c05History(r, c, false) })
 	r.CasesParallel("histories-single-change", n, 0, func(c *verifrt.Case) { c05History(r, c, true) })
 	r.Sample(map[string]any{"what": "a sensitive twin of a static-table pair as the pinned Encoder writes it", "field": ":method=GET sensitive", "wire_hex": fmt.Sprintf("%x", c05SampleWire())})
